@@ -115,9 +115,9 @@ parser! {
             x:(@) space() "%" space() y:@ { Expr::Binary(Box::new(BinaryExpr{left: x, operator: BinaryOperator::Rem, right: y})) }
             --
             // precedence 14
-            "-" v:(@) { Expr::Unary(Box::new(UnaryExpr{operator: UnaryOperator::Minus, expr: v})) }
-            "~" v:(@) { Expr::Unary(Box::new(UnaryExpr{operator: UnaryOperator::BitwiseNot, expr: v})) }
-            "!" v:(@) { Expr::Unary(Box::new(UnaryExpr{operator: UnaryOperator::LogicalNot, expr: v})) }
+            "-" space() v:(@) { Expr::Unary(Box::new(UnaryExpr{operator: UnaryOperator::Minus, expr: v})) }
+            "~" space() v:(@) { Expr::Unary(Box::new(UnaryExpr{operator: UnaryOperator::BitwiseNot, expr: v})) }
+            "!" space() v:(@) { Expr::Unary(Box::new(UnaryExpr{operator: UnaryOperator::LogicalNot, expr: v})) }
             --
             // precedence 15
             n:e_ident() space() "(" space() args:expr() space() ")" { Expr::Func(Box::new(n), Box::new(args)) }
